@@ -40,6 +40,32 @@ sys.exit(1 if bad else 0)
 '''
 
 
+REPLAY_BOUNDS = '''
+from vlib import build
+import numpy as np, tempfile, os, shutil, sys, warnings
+warnings.simplefilter('ignore')
+drf = build.load_pkg()
+kw = %r
+top = tempfile.mkdtemp(); tops = []
+base = 10**9
+want_f, want_l = [], []
+for i in (1, 2, 3):
+    f, n = kw.get('f%%d' %% i), kw.get('n%%d' %% i, 0)
+    d = os.path.join(top, 'top%%d' %% i); os.makedirs(os.path.join(d, 'ch')); tops.append(d)
+    w = drf.DigitalRFWriter(os.path.join(d, 'ch'), 'i2', 3600, 1000, base, 1, 1, 'u', is_complex=False, is_continuous=False, marching_periods=False)
+    if f is not None:
+        w.rf_write(np.zeros(n + 1, dtype='i2'), next_sample=f)
+        want_f.append(base + f); want_l.append(base + f + n)
+    w.close()
+r = drf.DigitalRFReader(tops)
+got = r.get_bounds('ch')
+want = (min(want_f), max(want_l)) if want_f else (None, None)
+print('bounds', got, 'expected', want)
+shutil.rmtree(top)
+sys.exit(1 if got != want else 0)
+'''
+
+
 def verify_branch(rep):
     mod = Module(build.c_ir()); stubs = envstubs.mk_stubs()
     res = []
@@ -112,7 +138,7 @@ def main(tier):
     tot = wcommon.report(rep, specs, results, lambda nm: True, label='session')
     rep.ob('later-session histories explored', 'witness', '%d configurations' % len(specs), tot['q'], tot['s'], tot['paths'])
     res = chx.run_module('reader', names=list(TITLES), per_condition_timeout=120 if tier == 'quick' else 600)
-    chx.report(rep, res, TITLES, replays={k: (lambda kw: REPLAY_SESSION) for k in TITLES})
+    chx.report(rep, res, TITLES, replays={'_bounds_merge': lambda kw: REPLAY_BOUNDS % (kw,)}, sigs={k: 'C11.' + k.strip('_') for k in TITLES})
     path = rep.write_replay('sessions_real', REPLAY_SESSION)
     ok, out = rep.run_replay(path)
     import os
